@@ -4,6 +4,7 @@ mod c04;
 mod c04bash;
 mod c06;
 mod c07bash;
+mod c09bash;
 mod c13;
 mod cpipe;
 mod csem;
@@ -92,6 +93,7 @@ fn main() {
             "pipeline" | "pipeline_fuzz" => cpipe::replay(&args[3..]),
             "c06_display" => c06::replay_display(&args[3..]),
             "c07_bash" => c07bash::replay(&args[3..]),
+            "c09_bash" => c09bash::replay(&args[3..]),
             "c04_tables" => c04::replay(&args[3..]),
             "c13_locations" | "c13_cli" => c13::replay(&args[2], &args[3..]),
             "c11_choice" | "c15_warnings" | "c08_classify" => csem::replay(&args[2], &args[3..]),
@@ -128,6 +130,7 @@ fn main() {
         "pipeline_fuzz" => cpipe::run_fuzz(thorough, seed),
         "c06_display" => c06::display(thorough),
         "c07_bash" => c07bash::run(thorough),
+        "c09_bash" => c09bash::run(thorough),
         "c04_tables" => c04::run(thorough, seed),
         "c13_locations" => c13::run_library(thorough),
         "c13_cli" => c13::run_cli(thorough),
